@@ -13,10 +13,10 @@ import (
 	"verif/internal/model"
 )
 
-const stdVars = `{"v":1,"w":"ab","arr":[1,2,{"a":3}],"obj":{"a":1,"b":[1,2]},"nul":null}`
+const stdVars = `{"v":1,"w":"ab","arr":[1,2,{"a":3}],"sarr":["ab","b",1],"obj":{"a":1,"b":[1,2]},"nul":null}`
 
 // stdVars1 has no object with more than one member (see ExecGen.Deterministic).
-const stdVars1 = `{"v":1,"w":"ab","arr":[1,2,{"a":3}],"obj":{"b":[1,2]},"nul":null}`
+const stdVars1 = `{"v":1,"w":"ab","arr":[1,2,{"a":3}],"sarr":["ab","b",1],"obj":{"b":[1,2]},"nul":null}`
 
 // ExecCase is one (path, document, options) triple.
 type ExecCase struct {
